@@ -11,7 +11,7 @@ from .codec import (composite_codec_decode_from_pdu, composite_codec_encode_into
 from .complexdop import ComplexDop
 from .decodestate import DecodeState
 from .encodestate import EncodeState
-from .exceptions import DecodeError, odxraise
+from .exceptions import DecodeError, EncodeError, odxraise
 from .nameditemlist import NamedItemList
 from .odxlink import OdxDocFragment, OdxLinkDatabase, OdxLinkId
 from .odxtypes import ParameterValue
@@ -82,7 +82,12 @@ class BasicStructure(ComplexDop):
         if self.byte_size is not None:
             actual_len = encode_state.cursor_byte_position - orig_pos
 
-            if actual_len < self.byte_size:
+            if actual_len > self.byte_size:
+                odxraise(
+                    f"Attempted to encode too large instance of structure "
+                    f"{self.short_name} ({actual_len} instead at most "
+                    f"{self.byte_size} bytes)", EncodeError)
+            elif actual_len < self.byte_size:
                 # Padding bytes are needed: the structure occupies
                 # the bytes from its own first byte (not the origin
                 # of the enclosing object) up to its byte size.
